@@ -21,7 +21,7 @@ for p in props:
         'engine': 'pyvc',
         'level_claimed': {'category': 'proof', 'text': LEVEL_TEXT.get(pid, LEVEL_TEXT['*']) , 'design_ref': 'DESIGN.md section 6 (%s)' % pid},
         'level_note': ' ; '.join(P.get('assumptions', [])) or 'see DESIGN.md section 4',
-        'technique': 'contract-based deductive verification: sidecar contracts on the real functions, VCs generated from the current AST, discharged by z3/cvc5; counter-models replayed on the real code',
+        'technique': 'contract-based deductive verification: sidecar contracts on the real functions, VCs generated from the current AST, discharged by z3/cvc5; counter-models replayed on the real code' + ((' ; ' + P['technique_note']) if P.get('technique_note') else ''),
     })
 m = {
     'version': 1,
